@@ -231,8 +231,10 @@ sanitize_registry = {
                 r'(?P<else>__(?:FILE|FILENAME|DATE|VERSION)__)')),     # Match elsewhere
             replace=lambda m: m['pp'] or f'"{m["else"]}"'),
 
-        # Replace integer CPP directives by 0
-        'INTEGER_PP_DIRECTIVES': PPRule(match='__LINE__', replace='0'),
+        # Replace integer CPP directives by 0 (but, as above, not inside CPP directives)
+        'INTEGER_PP_DIRECTIVES': PPRule(
+            match=re.compile(r'(?P<pp>^\s*#.*__LINE__)|(?P<else>__LINE__)'),
+            replace=lambda m: m['pp'] or '0'),
 
         # Replace CONVERT argument in OPEN calls
         'CONVERT_ENDIAN': PPRule(
